@@ -97,6 +97,7 @@ var fieldRefPaths = [][]string{
 	{"parent", "contact", "fields"},
 	{"child", "fields"},
 	{"child", "contact", "fields"},
+	{"run", "contact", "fields"},
 }
 
 // ExtractFromTemplate extracts asset references and parent result references from the given template. Note that
